@@ -189,7 +189,58 @@ def add_clock(rng, sc):
     if 'n' in sc:
         sc['times'], sc['fired'] = world.faulty_clock(rng, sc['n'], kinds=[k for k in ('jitter_in', 'jitter_out', 'offset', 'float_stamps')
                                                                           if rng.random() < 0.35])
+        add_redelivery(rng, sc, p=0.1)
     return sc
+
+
+def add_redelivery(rng, sc, p=0.15):
+    """transport fault 'redelivery' (at-least-once transport): one or two ticks of a discrete stream are verbatim repeats of
+    their predecessor - the same time-stamp AND the same value of every variable (and the same input order). The monitor has to
+    treat them as samples like any other (C02: the i-th update equals the offline value at sample i)"""
+    n = sc.get('n') or 0
+    if n < 2 or rng.random() >= p or 'times' not in sc or 'data' not in sc:
+        return 0
+    k = 0
+    for _ in range(rng.randint(1, 2)):
+        i = rng.randrange(1, n)
+        sc['times'][i] = sc['times'][i - 1]
+        for v in sc['data']:
+            sc['data'][v][i] = sc['data'][v][i - 1]
+        if sc.get('orders'):
+            sc['orders'][i] = list(sc['orders'][i - 1])
+        k += 1
+    sc.setdefault('fired', {})['sample_redelivered_verbatim'] = k
+    return k
+
+
+def iastl_safe(ast):
+    """interface-aware semantics replace predicates by +-inf: a formula is free of inf - inf (NaN, outside the numeric envelope)
+    when no predicate or arithmetic operator has a formula-valued operand and iff / xor do not occur"""
+    def has_pred(n):
+        return any(x[0] == 'pred' or x[0] in sg.BOOL_UN + sg.BOOL_BIN for x in sg.walk(n))
+    for x in sg.walk(ast):
+        if x[0] in ('iff', 'xor'):
+            return False
+        if x[0] == 'pred' or x[0] in sg.TERM_UN + sg.TERM_BIN:
+            if any(has_pred(c) for c in sg.children(x)):
+                return False
+    return True
+
+
+def draw_iastl(rng, vars_, ast, p=0.25):
+    """with probability p (and only for formulas that stay NaN-free): an interface-aware semantics and input/output declarations,
+    to be given to EVERY real monitor of the run alike (the combined classes 'dt' / 'ct' take a semantics). Checks whose oracle
+    is a second real monitor use it as one more configuration; the hooked reference (c06) gives definedness."""
+    if rng.random() >= p:
+        return None
+    ia = {'sem': rng.choice(['output-robustness', 'input-robustness', 'output-vacuity', 'input-vacuity']),
+          'io': dict((v, rng.choice(['input', 'output'])) for v in vars_ if rng.random() < 0.85)}
+    return ia if iastl_safe(ast) else None
+
+
+def iastl_hook(ia, scalar=True):
+    from . import c06
+    return (c06.hook_scalar if scalar else c06.hook_list)(ia['sem'], ia['io'])
 
 
 def ref_defined_on_prefixes(asts, data, n):
